@@ -103,30 +103,90 @@ def finish (r : Req) : Table × List File × List Occ :=
    (r.files.map fun f => (f.map fun s => (s.1, s.2.reverse)).reverse).reverse,
    r.argv.reverse)
 
-def answer (asIs : Bool) (T : Table) (files : List File) (argv : List Occ) : String :=
+def obsModel (T : Table) (st : St) : String :=
   let idx := List.range T.length
+  let items := idx.map fun i => match readBack T st i with
+    | .ok v => showVal v
+    | .error e => s!"e:{errStr e}"
+  let gets := idx.map fun i => match getDefault T st i with
+    | .ok none => "D"
+    | .ok (some v) => showVal v
+    | .error e => s!"e:{errStr e}"
+  let gs := (items.zip gets).map fun (p : String × String) => if p.1 == p.2 then "=" else p.2
+  "ok:" ++ "|".intercalate items ++ "#" ++ "|".intercalate (gs ++ ["U1"])
+
+/-- `section.get(key)` must give the same value as `section[key]`, and the default for an unknown key -/
+def obsSpec (T : Table) (specSt : Nat → Option Val) : Option String :=
+  let idx := List.range T.length
+  match idx.mapM fun i => (specSt i).bind fun _ => specReadBack T specSt (fuelFor T) i with
+  | some vs => some ("ok:" ++ "|".intercalate (vs.map showVal) ++ "#" ++ "|".intercalate (vs.map (fun _ => "=") ++ ["U1"]))
+  | none => none
+
+def answer (asIs : Bool) (T : Table) (files : List File) (argv : List Occ) : String :=
   let model := match run asIs T files argv with
     | .error e => s!"err:{errStr e}"
-    | .ok st =>
-      let items := idx.map fun i => match readBack T st i with
-        | .ok v => showVal v
-        | .error e => s!"e:{errStr e}"
-      let gets := idx.map fun i => match getDefault T st i with
-        | .ok none => "D"
-        | .ok (some v) => showVal v
-        | .error e => s!"e:{errStr e}"
-      let gs := (items.zip gets).map fun (p : String × String) => if p.1 == p.2 then "=" else p.2
-      "ok:" ++ "|".intercalate items ++ "#" ++ "|".intercalate (gs ++ ["U1"])
-  let specSt := den T files argv
-  let spec := if !inDomain T files argv then "-" else match idx.mapM fun i => (specSt i).bind fun _ => specReadBack T specSt (fuelFor T) i with
-    -- `section.get(key)` must give the same value as `section[key]`, and the default for an unknown key
-    | some vs => "ok:" ++ "|".intercalate (vs.map showVal) ++ "#" ++ "|".intercalate (vs.map (fun _ => "=") ++ ["U1"])
-    | none => "-"
+    | .ok st => obsModel T st
+  let spec := if !inDomain T files argv then "-" else (obsSpec T (den T files argv)).getD "-"
+  s!"{model}\t{spec}"
+
+/-! histories (`hist` stream): `file`…, `cli` `occ/…`…, `set/<sec>/<key>/<val>`, `obs` in any order -/
+structure HReq where
+  table : List Opt := []
+  steps : List Step := []      -- reversed; a `read`'s file reversed as in `Req`
+
+def stepH (r : Option HReq) (w : String) : Option HReq := do
+  let r ← r
+  match w.splitOn "/" with
+  | ["opt", sec, key, ty, d, fl, nfl, dest] =>
+    let o : Opt := ⟨← str? sec, ← str? key, ← str? dest, ← ty? ty, ← val? d, ← strs? fl, ← strs? nfl⟩
+    pure { r with table := o :: r.table }
+  | ["file"] => pure { r with steps := .read [] :: r.steps }
+  | ["sec", s] =>
+    match r.steps with
+    | .read f :: ss => pure { r with steps := .read (((← str? s), []) :: f) :: ss }
+    | _ => none
+  | ["kv", k, v] =>
+    match r.steps with
+    | .read ((s, items) :: f) :: ss => pure { r with steps := .read ((s, ((← str? k), (← str? v)) :: items) :: f) :: ss }
+    | _ => none
+  | ["cli"] => pure { r with steps := .cli [] :: r.steps }
+  | "occ" :: flag :: args =>
+    match r.steps with
+    | .cli a :: ss => pure { r with steps := .cli (⟨← str? flag, ← args.mapM str?⟩ :: a) :: ss }
+    | _ => none
+  | ["set", sec, key, v] => pure { r with steps := .assign (← str? sec) (← str? key) (← val? v) :: r.steps }
+  | ["obs"] => pure { r with steps := .observe :: r.steps }
+  | _ => none
+
+def finishH (r : HReq) : Table × List Step :=
+  (if r.table.isEmpty then PlasVerif.Generated.Config.table else r.table.reverse,
+   (r.steps.map fun s => match s with
+      | .read f => Step.read (f.map fun s => (s.1, s.2.reverse)).reverse
+      | .cli a => .cli a.reverse
+      | s => s).reverse)
+
+/-- the spec's observations: at each `obs`, the read-back of the per-option denotation of the history so far -/
+def specHist (T : Table) : List Step → List Step → List (Option String)
+  | _, [] => []
+  | done, s :: r =>
+    let done' := done ++ [s]
+    match s with
+    | .observe => (if done'.all (stepWf T) then obsSpec T (denHist T done') else none) :: specHist T done' r
+    | _ => specHist T done' r
+
+def answerH (T : Table) (steps : List Step) : String :=
+  let (sts, e) := hist false T steps (init T)
+  let model := ";;".intercalate (sts.map (obsModel T) ++ (match e with | some e => [s!"err:{errStr e}"] | none => []))
+  let specs := specHist T [] steps
+  let spec := if specs.all Option.isSome then ";;".intercalate (specs.map (·.getD "-")) else "-"
   s!"{model}\t{spec}"
 
 def handle : List String → String
   | "cfg" :: ws | "one" :: ws | "tab" :: ws => match ws.foldl step (some {}) with
     | some r => let (T, f, a) := finish r; answer false T f a
+    | none => "bad-op"
+  | "hist" :: ws => match ws.foldl stepH (some {}) with
+    | some r => let (T, st) := finishH r; answerH T st
     | none => "bad-op"
   | "cfg-asis" :: ws => match ws.foldl step (some {}) with
     | some r => let (T, f, a) := finish r; answer true T f a
